@@ -295,7 +295,9 @@ impl CompositeIR {
 impl ToTokensWithSettings for CompositeFieldIR {
     fn to_tokens(&self, tokens: &mut TokenStream, settings: &TypeGeneratorSettings) {
         let ty_path = &self.type_path.to_syn_type(&settings.alloc_crate_path);
-        if self.is_boxed {
+        // A compact field is printed as its inner type plus `#[codec(compact)]`, which needs the bare type
+        // (`Box<T>` is not `HasCompact`); it holds an integer, so it never needs the indirection.
+        if self.is_boxed && !self.is_compact {
             let alloc_path = &settings.alloc_crate_path;
             tokens.extend(quote! { #alloc_path::boxed::Box<#ty_path> })
         } else {
